@@ -245,7 +245,9 @@ def _check(entry, rep):
     E = _entries()
     takes_q, takes_nd, fn = E[entry]
     img = _scene()
-    err = np.full(img.shape, 3.0)
+    # integer-valued, non-uniform error map (exact in every dtype)
+    err = 3.0 + (np.arange(img.shape[1])[None, :] % 3) + (
+        np.arange(img.shape[0])[:, None] % 2)
     with warnings.catch_warnings():
         warnings.simplefilter('ignore')
         base, _ = fn(img.copy(), err.copy(), None)
